@@ -12,11 +12,24 @@ def plan(tier):
         for part in parts:
             units.append(dict(name='%s-p%d' % (comp, part), src='C05.cpp', compiler=comp, mode='ndebug', opt='-O0',
                               defines=['VF_TIER=%d' % t, 'VF_PART=%d' % part], shards=2))
+    # elastic_scaled_integer (= scaled_integer<elastic_integer<D>, power<E>>): + - * and unary - through the scaled_integer
+    # kernel of C01 with elastic reps whose digits + alignment gap land on the storage boundaries
+    import C01
+    import scaledgen as g
+    es = C01.elastic_boundary_programs(t, unsigned=True)
+    for d in (3, 7):
+        for (le, re) in [(-2, -2), (-4, 1), (3, -3)]:
+            es.append('P(ES<%d>, %d, ES<%d>, %d, 2)' % (d, le, d, re))
+            es.append('P(EU<%d>, %d, ES<%d>, %d, 2)' % (d, le, d + 1, re))
+    for i, text in enumerate(g.split(es, 6 if t else 3)):
+        units.append(dict(name='g++-escaled%d' % i, src='C01.cpp', compiler='g++', mode='ndebug', opt='-O0',
+                          defines=['VF_TIER=%d' % t], gen={'programs.inc': text}, shards=2))
     return dict(
         units=units,
         rule='values: every operand pair of elastic_integer<L,{signed,unsigned}> x elastic_integer<R,...> for L in %s, R in 1..7, narrowest int8_t/uint8_t and int/unsigned, '
              'operators + - * / %% (divisor != 0), six comparisons, unary -,+, << and >> by constant<0|1|3>; corners: complete product of the corner values '
              '{0,+-1,+-2,+-3,+-7,+-(2^D-1),+-(2^D-2),+-2^(D-1)(+-1),+-2^(D/2)(+-1),0101..} for digit pairs from %s x same; '
+             'elastic_scaled_integer: + - * unary - over lattice values for digit/exponent pairs whose digits + alignment gap hit 8/16/32/64 (+-1); '
              'non-trivial = an operand at the edge of its declared range or operand types differ' % (value_parts, corner_digits),
         bound=dict(value_digits_lhs=value_parts, value_digits_rhs=[1, 7], corner_digits=corner_digits, wide_storage_corner_digits=wide_digits, narrowest=['int8_t/uint8_t', 'int/unsigned']),
         assumptions=['>> by a constant is judged as floor(x / 2^k) (arithmetic shift)',
